@@ -85,3 +85,16 @@ level("C13",
       "expression (helpers inlined to depth 3).",
       "symbolic string provenance + regex AST with an opaque hole; call-site classification; guard shape of the decision",
       "DESIGN.md §4 C13")
+
+level("C19",
+      "Static decision for every argv and preamble text of: each run-time component of the header, located in its "
+      "lexical context, is a fixed-alphabet value or passes as its last transformation a replacement of the closing "
+      "quote run (with non-quote neighbours, newline after); run() emits header + module with the stored preamble "
+      "unchanged; every layout generate_code can return is [imports]? [preamble]? classes with the untransformed "
+      "preamble at most once, also without imports, guarded by its own truthiness only; only str.strip() between "
+      "--preamble and the stored value.",
+      "Decided: INJ-4, SHAPE-1..3. NOT decided: validity of the module for each concrete argv is argued from the "
+      "sanitiser reasoning, not by parsing outputs; undecodable argv bytes. Trusted: symbolic string evaluation "
+      "(reaching definitions, helper inlining), the lexical-context scanner, the sanitiser adequacy argument.",
+      "symbolic string provenance with lexical-context classification of holes (taint with sanitiser adequacy) + layout of string atoms",
+      "DESIGN.md §4 C19")
